@@ -64,6 +64,15 @@ def rand_aspath(r: random.Random, asn4: bool, allow4: bool = True):
     return segs
 
 
+def rand_confed(r: random.Random, pool) -> list:
+    """RFC 5065 confederation segments, which lead the path (AS_CONFED_SEQUENCE 3, AS_CONFED_SET 4); RFC 6793 counts them
+    for nothing when AS_PATH and AS4_PATH are merged"""
+    out = [(3, [r.choice(pool) for _ in range(r.choice([1, 2, 4]))])]
+    if r.random() < 0.3:
+        out.append((4, [r.choice(pool) for _ in range(r.choice([1, 3]))]))
+    return out
+
+
 def rand_attrs(r: random.Random, asn4: bool, ibgp: bool, want_nexthop: bool = True, rich: float = 0.5) -> dict:
     """semantic attribute description -> {'origin':..., 'as_path': [...], ...}"""
     a: dict = {'origin': r.choice([0, 1, 2]), 'as_path': rand_aspath(r, asn4)}
@@ -73,7 +82,13 @@ def rand_attrs(r: random.Random, asn4: bool, ibgp: bool, want_nexthop: bool = Tr
         lead = [(2, [r.choice(ASN2) for _ in range(r.choice([1, 2, 4]))])]
         if r.random() < 0.3:
             lead.insert(r.choice([0, 1]), (1, [r.choice(ASN2) for _ in range(r.choice([1, 3]))]))
+        if r.random() < 0.3:
+            lead = rand_confed(r, ASN2) + lead  # the OLD speakers sit inside a confederation
         a['as_path'] = lead + a['as_path']
+    elif r.random() < 0.12 and (asn4 or not any(x > 65535 for _, asns in a['as_path'] for x in asns)):
+        # (with an AS4_PATH of the same hop count RFC 6793 4.2.3 takes nothing from the front of AS_PATH and says nothing
+        # about confederation segments standing there: that combination has no single right answer and is not generated)
+        a['as_path'] = rand_confed(r, ASN2 + (ASN4 if asn4 else [])) + a['as_path']
     if want_nexthop:
         a['next_hop'] = r.choice(['192.0.2.1', '10.0.0.254', '203.0.113.9'])
     if r.random() < rich:
